@@ -4,6 +4,7 @@
 // glibc prints their exact decimal expansion).
 #include <cmath>
 #include <cstring>
+#include <xmmintrin.h>
 #include <memory>
 #include <set>
 
@@ -22,6 +23,8 @@ static std::set<int> g_rows;  // decimal exponents (table rows) touched by the m
 static uint64_t dbits(double d) { uint64_t b; memcpy(&b, &d, 8); return b; }
 static double bitsd(uint64_t b) { double d; memcpy(&d, &b, 8); return d; }
 
+static bool g_daz = false;  // --daz: MXCSR.DAZ|FTZ set while the library parses (oracles run in the default environment)
+
 static std::string judge(const std::string& num, int ctx, size_t pad) {
   MV want;
   bool finite = refjson::number_value(num, want);
@@ -35,6 +38,10 @@ static std::string judge(const std::string& num, int ctx, size_t pad) {
   std::unique_ptr<char[]> buf(new char[text.size()]);
   memcpy(buf.get(), text.data(), text.size());
   Document doc;
+  // conversion is integer arithmetic plus exact floating-point steps on normal numbers: denormals-are-zero / flush-to-zero in the
+  // caller's MXCSR (what -ffast-math start-up code leaves behind) must not change any result
+  unsigned csr = _mm_getcsr();
+  if (g_daz) _mm_setcsr(csr | 0x8040u);
   if (ctx == 3) {
     doc.Parse("{\"k\":-1,\"z\":\"old\"}");
     doc.ParseSchema(buf.get(), text.size());
@@ -48,6 +55,7 @@ static std::string judge(const std::string& num, int ctx, size_t pad) {
     doc.ParseOnDemand(buf.get(), text.size(), jp);
   } else
     doc.Parse(buf.get(), text.size());
+  _mm_setcsr(csr);
   char b[200];
   if (!finite) {
     if (!doc.HasParseError()) return "number that rounds to infinity was accepted";
@@ -304,9 +312,13 @@ static void direct(const Fields& f, Case& c) {
   if (!is_num) return;  // not a bare number spelling: outside this harness's domain
   int ctx = field(f, "ctx") ? atoi(field(f, "ctx")->c_str()) : -1;
   size_t pad = field(f, "pad") ? (size_t)atoi(field(f, "pad")->c_str()) : 0;
-  for (int k = 0; k < 6; k++) {
-    if (ctx >= 0 && ctx != k) continue;
-    std::string m = judge(*num, k, pad);
+  for (int k = 0; k < 12; k++) {
+    if (ctx >= 0 && ctx != k % 6) continue;
+    bool keep = g_daz;
+    g_daz = k >= 6;
+    std::string m = judge(*num, k % 6, pad);
+    g_daz = keep;
+    if (!m.empty() && k >= 6) m = "[with MXCSR.DAZ|FTZ set] " + m;
     if (!m.empty()) c.fail(m + " | num=" + printable(*num, 900) + " ctx=" + std::to_string(k));
   }
 }
@@ -319,7 +331,7 @@ extern "C" int LLVMFuzzerTestOneInput(const uint8_t* data, size_t size) {
   return fuzz_bytes(def, data, size, "num");
 }
 #else
-VF_HARNESS_MAIN((HarnessDef{"c04_numbers", "C04", property, direct, nullptr, [](std::map<std::string, std::string>& e) {
+VF_HARNESS_MAIN((HarnessDef{"c04_numbers", "C04", property, direct, [] { g_daz = arg_value("daz") != nullptr; }, [](std::map<std::string, std::string>& e) {
                               e["pow10_rows_touched"] = std::to_string(g_rows.size());
                             }}))
 #endif
